@@ -482,7 +482,32 @@ func c01SelfRefCases() []c01Run {
 	return out
 }
 
-var c01ValueList = append(c01SelfRefCases(), append(append(append(append(append(c01PrintfCases(), c01ValueCases()...), c01StoreCases()...), c01TinyInputs()...), c01HeaderSignals()...), c01ReceiverCases()...)...)
+// ---- many distinct patterns / formats / keys in one run (tables that fill up), and patterns that match without binding
+func c01ManyCases() []c01Run {
+	var out []c01Run
+	progs := []string{
+		"BEGIN { for (i = 0; i < 70; i++) { if ('abc' + i ~ ('c' + i)) { n++ } } print n }",
+		"BEGIN { for (i = 0; i < 70; i++) { if ('abc' !~ ('^' + i + 'x')) { n++ } } print n }",
+		"{ if ($.name ~ $.pat) { print 'hit', $.name } }",
+		"$.name ~ $.pat",
+		"BEGIN { for (i = 0; i < 300; i++) { printf('%' + (i % 40 + 1) + 's|', i) } print '' }",
+		"BEGIN { for (i = 0; i < 300; i++) { o['k' + i] = i; a[i] = 'v' + i } print o.length(), a.length(), o.k299, a[299] }",
+		"BEGIN { for (i = 0; i < 300; i++) { s = s + ('' + i).length() } print s }",
+		"function f(v) { return match (v) { [] => 'empty', [0, 0] => 'zeros', [[1], 2] => 'nested', other => 'other' } } BEGIN { print f([]), f([0, 0]), f([[1], 2]), f([0]), f([]); print 'after' }",
+		"{ print match ($.v) { [] => 'empty', [0, 0] => 'zeros', [[1], 2] => 'nested', [null] => 'null', other => 'other' } } END { print 'end' }",
+		"BEGIN { print match ([]) { [] => 'empty' }; print match ([1, [2]]) { [1, [2]] => { print 'in block' } }; x = 5; print x }",
+	}
+	var in strings.Builder
+	for i := 0; i < 60; i++ {
+		fmt.Fprintf(&in, "{\"name\": \"n%d\", \"pat\": \"^n%d$\", \"v\": %s}\n", i, i, []string{"[]", "[0, 0]", "[[1], 2]", "[null]", "7"}[i%5])
+	}
+	for _, p := range progs {
+		out = append(out, c01Run{prog: p, input: []byte(in.String()), name: "many:" + p})
+	}
+	return out
+}
+
+var c01ValueList = append(c01ManyCases(), append(c01SelfRefCases(), append(append(append(append(append(c01PrintfCases(), c01ValueCases()...), c01StoreCases()...), c01TinyInputs()...), c01HeaderSignals()...), c01ReceiverCases()...)...)...)
 
 // ---- sampled
 
@@ -638,7 +663,7 @@ func c01Run_(c *Case) {
 func init() {
 	register(&Prop{
 		ID: "C01", Level: "exploration",
-		Rule:          "outcome classification only (no model): every run must end as ok / syntax / runtime / json; a recovered panic, a control-flow sentinel or any other error value, the death of the worker process, and for the binary a signal, a Go trace on stderr or a non-zero status without diagnostic are violations. Enumerated: {next, exit, break, continue, return, return v} x 16 placements (BEGIN, END, BEGINFILE, ENDFILE, pattern body, pattern expression via a match block, function called from each of the five rule kinds, match block in BEGIN / pattern rule / function, -r selector via a match block alone and after a plain selector) x {plain, while, for, for-in, nested for-in, nested if} x 4 inputs, all also through the binary; 28 nestable constructs nested 1000 / 8000 / as deep as 64 KiB allows, and 6 of them inside a self-recursive function (recursion x nesting); 22 cyclic / shared shapes (built twice) x 62 operations that walk a value (comparison, contains, sort, match, iteration, rendering, arithmetic, member chains, stores into itself) and 15 histories that shrink an array through one of two references and then walk it through the other; 25 store forms (plain, nested, through fresh names, through $, with ++ / += / --) x 18 keys of every kind (booleans, null, unset, containers, regex, function, fractions, negative, huge) on bases of every kind; every one-byte input and 50 short prefixes of byte-order marks, multi-byte sequences and JSON tokens; the six signals raised from every loop-header position / condition / print list through a match block, with and without an enclosing loop, at rule level and inside functions; method calls on every receiver kind whose argument reassigns the receiver's own location to a value of another kind before the call happens (24 call forms x 8 receivers x 9 new values); 43 statement forms in which one part reassigns a variable that another part of the same statement is using (index base, store target, argument list, loop iterable, match subject, operands) on 6 initial values; printf with every width 1-12 in three padding styles on strings whose byte and character counts differ; all also through the binary. Sampled: whole-grammar random programs in random layouts, token-level mutations, byte-level mutations of these and of the repository's fuzz corpus, raw bytes; hostile inputs (JSONL, truncated, stray closers, nesting to 20000, garbage, empty); generated / mutated / garbage selectors; EvalExpression on JSON-typed roots; fuzzing flag on and off; step budget 50000 (budget-exhausted runs are inconclusive). Non-trivial = at least 3 interpreter steps executed (hook) or a syntax error in a text of >= 10 bytes; distinct by hash of program+selectors+input.",
+		Rule:          "outcome classification only (no model): every run must end as ok / syntax / runtime / json; a recovered panic, a control-flow sentinel or any other error value, the death of the worker process, and for the binary a signal, a Go trace on stderr or a non-zero status without diagnostic are violations. Enumerated: {next, exit, break, continue, return, return v} x 16 placements (BEGIN, END, BEGINFILE, ENDFILE, pattern body, pattern expression via a match block, function called from each of the five rule kinds, match block in BEGIN / pattern rule / function, -r selector via a match block alone and after a plain selector) x {plain, while, for, for-in, nested for-in, nested if} x 4 inputs, all also through the binary; 28 nestable constructs nested 1000 / 8000 / as deep as 64 KiB allows, and 6 of them inside a self-recursive function (recursion x nesting); 22 cyclic / shared shapes (built twice) x 62 operations that walk a value (comparison, contains, sort, match, iteration, rendering, arithmetic, member chains, stores into itself) and 15 histories that shrink an array through one of two references and then walk it through the other; 25 store forms (plain, nested, through fresh names, through $, with ++ / += / --) x 18 keys of every kind (booleans, null, unset, containers, regex, function, fractions, negative, huge) on bases of every kind; every one-byte input and 50 short prefixes of byte-order marks, multi-byte sequences and JSON tokens; the six signals raised from every loop-header position / condition / print list through a match block, with and without an enclosing loop, at rule level and inside functions; method calls on every receiver kind whose argument reassigns the receiver's own location to a value of another kind before the call happens (24 call forms x 8 receivers x 9 new values); 43 statement forms in which one part reassigns a variable that another part of the same statement is using (index base, store target, argument list, loop iterable, match subject, operands) on 6 initial values; 10 programs that use 60-300 distinct patterns / formats / keys in one run, and array patterns that match without binding a name; printf with every width 1-12 in three padding styles on strings whose byte and character counts differ; all also through the binary. Sampled: whole-grammar random programs in random layouts, token-level mutations, byte-level mutations of these and of the repository's fuzz corpus, raw bytes; hostile inputs (JSONL, truncated, stray closers, nesting to 20000, garbage, empty); generated / mutated / garbage selectors; EvalExpression on JSON-typed roots; fuzzing flag on and off; step budget 50000 (budget-exhausted runs are inconclusive). Non-trivial = at least 3 interpreter steps executed (hook) or a syntax error in a text of >= 10 bytes; distinct by hash of program+selectors+input.",
 		NumCases:      c01Cases,
 		Run:           c01Run_,
 		MinConclusive: func(tier string) int { return 20000 },
